@@ -22,6 +22,10 @@ class PatchwiseTransform(KDTransform):
     def set_rng(self, rng):
         return self.transform.set_rng(rng)
 
+    def _scale_strength(self, factor):
+        if isinstance(self.transform, KDTransform):
+            self.transform.scale_strength(factor)
+
     @property
     def is_kd_transform(self):
         return self.transform.is_kd_transform
